@@ -56,6 +56,44 @@ pub enum FaultKind {
     MissingParam,
     /// a valid call whose `oneway` member is a string
     BadFlag,
+    /// a generated undecodable frame of `len` bytes (never a call): depending on `seed` byte soup
+    /// that does not start a JSON document, a call cut off inside a long string parameter, or a
+    /// JSON array holding one long string; the content mixes ASCII with 2-, 3- and 4-byte UTF-8
+    /// sequences (and, for odd seeds of the soup form, invalid bytes), so multi-byte characters
+    /// straddle every offset
+    Soup { seed: u16, len: u16 },
+}
+
+/// `len` bytes of NUL-free content drawn from a mixed alphabet (deterministic in `seed`).
+pub fn soup_content(seed: u16, len: usize, allow_invalid: bool) -> Vec<u8> {
+    let mut x = (seed as u64).wrapping_mul(0x9E37_79B9_7F4A_7C15) | 1;
+    let mut next = move || {
+        x ^= x << 13;
+        x ^= x >> 7;
+        x ^= x << 17;
+        x
+    };
+    const MULTI: [&str; 8] = ["\u{e9}", "\u{df}", "\u{20ac}", "\u{4e2d}", "\u{2028}", "\u{1f600}", "\u{10348}", "\u{fffd}"];
+    let mut out = Vec::with_capacity(len + 4);
+    while out.len() < len {
+        let r = next();
+        match r % 8 {
+            0..=2 => out.push(b'a' + ((r >> 8) % 26) as u8),
+            3 => out.push(b" {}[]:,0123456789-.eE"[((r >> 8) % 21) as usize]),
+            4..=6 => out.extend_from_slice(MULTI[((r >> 8) % 8) as usize].as_bytes()),
+            _ if allow_invalid => out.push([0xff, 0xc0, 0x80, 0xed, 0xf8][((r >> 8) % 5) as usize]),
+            _ => out.push(b'~'),
+        }
+    }
+    // cut back to `len` on a character boundary when the content has to stay valid UTF-8
+    if !allow_invalid {
+        while out.len() > len || std::str::from_utf8(&out).is_err() {
+            out.pop();
+        }
+    } else {
+        out.truncate(len);
+    }
+    out
 }
 
 pub const FAULT_KINDS: [FaultKind; 7] = [
@@ -168,6 +206,30 @@ impl FrameSpec {
                 FaultKind::WrongTypes => br#"{"method":"org.example.Echo","parameters":{"c":"one","id":[],"pad":3}}"#.to_vec(),
                 FaultKind::MissingParam => format!(r#"{{"method":"org.example.Echo","parameters":{{"c":{c}}}}}"#).into_bytes(),
                 FaultKind::BadFlag => format!(r#"{{"method":"org.example.Noop","parameters":{{"c":{c},"id":1}},"oneway":"yes"}}"#).into_bytes(),
+                FaultKind::Soup { seed, len } => {
+                    let len = len as usize;
+                    match seed % 3 {
+                        0 => {
+                            // does not start a JSON document
+                            let mut v = vec![b"}])x,:"[(seed as usize / 3) % 6]];
+                            v.extend(soup_content(seed, len, seed % 2 == 1));
+                            v
+                        }
+                        1 => {
+                            // a call cut off inside its string parameter
+                            let mut v = format!(r#"{{"method":"org.example.Echo","parameters":{{"c":{c},"id":0,"pad":""#).into_bytes();
+                            v.extend(soup_content(seed, len, false));
+                            v
+                        }
+                        _ => {
+                            // valid JSON of the wrong shape with one long string
+                            let mut v = b"[\"".to_vec();
+                            v.extend(soup_content(seed, len, false));
+                            v.extend_from_slice(b"\"]");
+                            v
+                        }
+                    }
+                }
             },
         }
     }
